@@ -3,7 +3,7 @@
   and `combine` of core/client/filter_ntimed.go — as regenerated from /repo's Go source on every run
   (Gen/Leaf.lean; fifth generation of the leaf translator: the pointer receiver is threaded through
   and returned, named and multiple results, `var` zero values, constants declared in the body,
-  math.Sqrt, `timebase.Epoch()` as an extra parameter — one value per call —, log-only blocks
+  math.Sqrt, `timebase.Epoch()` as an extra parameter — one per call site, eighth generation —, log-only blocks
   skipped) is the hand-written model of Model/Filters.lean: same new state and same returned
   offset, for every state, every four instants and every epoch value (all doubles incl. NaN).
   So the theorems of Props/C17.lean / C17Num.lean about `ntimedDo` are theorems about the code
@@ -72,7 +72,7 @@ theorem bne_uint64 (a b : UInt64) : (a != b) = true ↔ a.toNat ≠ b.toNat := b
   rw [bne_iff_ne]; exact not_congr UInt64.toNat_inj.symm
 
 theorem C17_leaf_Do (f : S_NtimedFilter) (cTx sRx sTx cRx : Int) (e : UInt64) :
-    let r := client_NtimedFilter_Do f cTx sRx sTx cRx e
+    let r := client_NtimedFilter_Do f cTx sRx sTx cRx e e
     let m := ntimedDo e.toNat (nt f) ⟨cTx, sRx, sTx, cRx⟩
     nt r.1 = m.1 ∧ r.2.toInt = m.2 := by
   have hlt0 : F64.lt c0 c20 = true := by decide +kernel
@@ -103,13 +103,56 @@ theorem C17_leaf_Do (f : S_NtimedFilter) (cTx sRx sTx cRx : Int) (e : UInt64) :
     · repeat' split
       all_goals simp_all
 
+/-- `Do` reads `timebase.Epoch()` TWICE — once in its own test `f.epoch != timebase.Epoch()`, once
+    more inside `f.Reset()` — and each reading is a parameter of its own since the eighth generation
+    of the translator (`e1`, `e2`). With two different readings the call is the call on the filter
+    reset under the second reading, under that reading alone; so `C17_leaf_Do` (one value) covers
+    every call, and a third reading added to the code changes the generated signature. -/
+theorem C17_leaf_Do_two_readings (f : S_NtimedFilter) (cTx sRx sTx cRx : Int) (e1 e2 : UInt64) :
+    client_NtimedFilter_Do f cTx sRx sTx cRx e1 e2 =
+      if (f.epoch != e1) = true then
+        client_NtimedFilter_Do (client_NtimedFilter_Reset f e2) cTx sRx sTx cRx e2 e2
+      else client_NtimedFilter_Do f cTx sRx sTx cRx e1 e1 := by
+  by_cases he : (f.epoch != e1) = true
+  · rw [if_pos he]
+    have h2 : ((client_NtimedFilter_Reset f e2).epoch != e2) = false := by
+      simp [client_NtimedFilter_Reset]
+    simp only [client_NtimedFilter_Do, he, h2, if_true, Bool.false_eq_true, if_false]
+  · have heb : (f.epoch != e1) = false := by simpa using he
+    rw [if_neg he]
+    simp only [client_NtimedFilter_Do, heb, Bool.false_eq_true, if_false]
+
+/-- the tie for every pair of readings -/
+theorem C17_leaf_Do_all (f : S_NtimedFilter) (cTx sRx sTx cRx : Int) (e1 e2 : UInt64) :
+    let r := client_NtimedFilter_Do f cTx sRx sTx cRx e1 e2
+    let m := if f.epoch.toNat ≠ e1.toNat then ntimedDo e2.toNat (ntimedReset e2.toNat (nt f)) ⟨cTx, sRx, sTx, cRx⟩
+             else ntimedDo e1.toNat (nt f) ⟨cTx, sRx, sTx, cRx⟩
+    nt r.1 = m.1 ∧ r.2.toInt = m.2 := by
+  intro r m
+  have h := C17_leaf_Do_two_readings f cTx sRx sTx cRx e1 e2
+  by_cases he : (f.epoch != e1) = true
+  · have he' : f.epoch.toNat ≠ e1.toNat := (bne_uint64 _ _).mp he
+    have hr : r = client_NtimedFilter_Do (client_NtimedFilter_Reset f e2) cTx sRx sTx cRx e2 e2 := by
+      show client_NtimedFilter_Do f cTx sRx sTx cRx e1 e2 = _
+      rw [h, if_pos he]
+    have hm : m = ntimedDo e2.toNat (ntimedReset e2.toNat (nt f)) ⟨cTx, sRx, sTx, cRx⟩ := if_pos he'
+    rw [hr, hm, ← C17_leaf_Reset]
+    exact C17_leaf_Do _ cTx sRx sTx cRx e2
+  · have he' : ¬ f.epoch.toNat ≠ e1.toNat := fun hh => he ((bne_uint64 _ _).mpr hh)
+    have hr : r = client_NtimedFilter_Do f cTx sRx sTx cRx e1 e1 := by
+      show client_NtimedFilter_Do f cTx sRx sTx cRx e1 e2 = _
+      rw [h, if_neg he]
+    have hm : m = ntimedDo e1.toNat (nt f) ⟨cTx, sRx, sTx, cRx⟩ := if_neg he'
+    rw [hr, hm]
+    exact C17_leaf_Do f cTx sRx sTx cRx e1
+
 /-- non-vacuity: a fresh filter's first sample under epoch 7 (reset path), evaluated through the
     generated definition -/
 def fresh0 : S_NtimedFilter :=
   { epoch := 0, alo := c0, amid := c0, ahi := c0, alolo := c0, ahihi := c0, navg := c0 }
 
-example : (client_NtimedFilter_Do fresh0 1000 2000 3000 5000 7).1.epoch = 7 ∧
-    (client_NtimedFilter_Do (client_NtimedFilter_Do fresh0 1000 2000 3000 5000 7).1 11000 12000 13000 15000 7).1.navg
+example : (client_NtimedFilter_Do fresh0 1000 2000 3000 5000 7 7).1.epoch = 7 ∧
+    (client_NtimedFilter_Do (client_NtimedFilter_Do fresh0 1000 2000 3000 5000 7 7).1 11000 12000 13000 15000 7 7).1.navg
       = F64.ofInt 2 := by
   decide +kernel
 
